@@ -325,7 +325,7 @@ class Built(object):
                     spec = pw['asm'][aid]
                     if isinstance(spec, list):
                         spec = spec[t]
-                    if 'pins' in spec and not isinstance(spec.get('pins'), (str, type(None))):
+                    if any(isinstance(spec.get(k_), (list, tuple)) for k_ in ('pins', 'duct', 'cool')):
                         full = spec
                     else:
                         full = expand_power(spec, spec['rings'], spec.get('nduct', 1))
